@@ -67,6 +67,12 @@ func (c *Ctx) callGraph() map[*FuncUnit]map[*FuncUnit]bool {
 						for _, tk := range m.Trees {
 							add(u, tk.Methods[f.Name()])
 						}
+					} else if f.Pkg() == m.Pkg {
+						// a call through another interface of the package (the node layouts behind
+						// one): every method of that name whose receiver implements it
+						for _, cu := range m.implementers(f) {
+							add(u, cu)
+						}
 					}
 				}
 			case *ast.SelectorExpr:
